@@ -842,7 +842,7 @@ def _parse_topology_keys(mol: dict, lit: LineIterator) -> dict:
     # Note: The QCSchema spec allows for non-integer bond_orders, these are forced to integers here
     # in accordance with current IOData specification
     if "connectivity" in mol:
-        topology_dict["bonds"] = np.array(mol["connectivity"], dtype=int)
+        topology_dict["bonds"] = np.array(mol["connectivity"], dtype=int).reshape(-1, 3)
     # Check for fragment keys
     # List fragment indices in nested list (likely is a jagged array)
     if "fragments" in mol:
